@@ -259,6 +259,16 @@ def build_dataset(case):
     obj = state.obj
     dec = case['decor']
     obj.measurements = ob.apply_special(obj.measurements, dec['special'])
+    m = obj.measurements
+    if not dec['special'] and m.size and np.all(np.isfinite(m)) and np.all(m == np.round(m)) \
+            and np.abs(m).max() < 2 ** 31:
+        # integral recordings kept in an integer array (counts, raw ADC values): the stored array
+        # is what comes back, with its number type (a deterministic function of the shape)
+        pick = (m.shape[0] + 2 * m.shape[1]) % 3
+        if pick == 1:
+            obj.measurements = m.astype(np.int64)
+        elif pick == 2:
+            obj.measurements = m.astype(np.uint8 if m.min() >= 0 and m.max() < 256 else np.int32)
     obj.descriptors = dict(obj.descriptors)
     for k, v in dec['desc'].items():
         obj.descriptors[k] = ob.decode_value(v)
@@ -427,7 +437,16 @@ def roundtrip_rdms(r, tgt, tag='rdms'):
     lo = load_obj(load_rdm, tgt, tag)
     ob.cmp_rdms(lo, r, tag)
     ob.lib_eq(lo, r, tag, ob.has_nan(r.dissimilarities))
-    return lo
+    # the loaded object is the caller's: working on it in place and reading the unchanged file
+    # again still yields the saved object
+    lo.dissimilarities[...] = 0
+    lo.descriptors['scratch'] = 1
+    for v in lo.pattern_descriptors.values():
+        if isinstance(v, np.ndarray) and v.dtype.kind in 'if' and v.size:
+            v[...] = 0
+    again = load_obj(load_rdm, tgt, tag + ' (second load)')
+    ob.cmp_rdms(again, r, tag + ':second-load')
+    return again
 
 
 def roundtrip_dataset(d, tgt, tag='dataset'):
@@ -439,7 +458,11 @@ def roundtrip_dataset(d, tgt, tag='dataset'):
     lo = load_obj(load_dataset, tgt, tag)
     ob.cmp_dataset(lo, d, tag)
     ob.lib_eq(lo, d, tag, ob.has_nan(d.measurements))
-    return lo
+    lo.measurements[...] = 0
+    lo.descriptors['scratch'] = 1
+    again = load_obj(load_dataset, tgt, tag + ' (second load)')
+    ob.cmp_dataset(again, d, tag + ':second-load')
+    return again
 
 
 TEST_TYPES = ['t-test', 'bootstrap', 'ranksum']
